@@ -24,6 +24,10 @@
 #include <opm/input/eclipse/Units/UnitSystem.hpp>
 #include <opm/output/eclipse/Summary.hpp>
 #include <opm/output/eclipse/Inplace.hpp>
+#include <opm/output/eclipse/RegionCache.hpp>
+#include <opm/io/eclipse/SummaryNode.hpp>
+#include <opm/input/eclipse/Schedule/Well/Connection.hpp>
+#include <opm/input/eclipse/Schedule/Well/WellConnections.hpp>
 #include <opm/output/data/Wells.hpp>
 #include <opm/output/data/Groups.hpp>
 #include <opm/common/utility/TimeService.hpp>
@@ -56,6 +60,25 @@ const std::vector<std::string> kSuffix = {
     "GPRS", "GPRF", "OPRS", "OPRF", "GPTS", "GPTF", "OPTS", "OPTF",
     "NPR", "NPT", "NIR", "NIT", "CPR", "CPT", "CIR", "CIT", "SPR", "SPT", "SIR", "SIT",
     "EPR", "EPT", "EIR", "EIT", "GMIR", "GMIT", "GVPR", "GVIR", "WVIR", "CPC", "SPC",
+};
+
+// levels below the well, regions, network nodes (the leaves crate<>, crate_resv<>, cpr, cratel<>, ratel<>,
+// srate<>, segpress<>, region_rate<>, node_pressure of the funs table)
+const std::vector<std::string> kConnKeys = {
+    "CWIR", "CGIR", "COIR", "CVIR", "CCIR", "CSIR", "COIT", "CWIT", "CGIT", "CVIT", "CNIT", "CWPR", "COPR", "CGPR", "CVPR",
+    "CCPR", "CSPR", "CGFR", "COFR", "CWFR", "CWCT", "CGOR", "CNFR", "CWPT", "COPT", "CGPT", "CVPT", "CNPT", "CCIT", "CCPT",
+    "CSIT", "CSPT", "CGFRF", "CGFRS", "COFRF", "COFRS", "CPR",
+    "CGIRL", "CGITL", "CWIRL", "CWITL", "CWPRL", "CWPTL", "COPRL", "COPTL", "CGPRL", "CGPTL", "COFRL", "CGORL", "CWCTL",
+};
+const std::vector<std::string> kWellComplKeys = {
+    "WWPTL", "WGPTL", "WOPTL", "WWPRL", "WGPRL", "WOPRL", "WOFRL", "WWIRL", "WWITL", "WGIRL", "WGITL", "WLPTL", "WWCTL", "WGORL",
+};
+const std::vector<std::string> kSegKeys = {
+    "SOFR", "SOFT", "SOFRF", "SOFRS", "SGFR", "SGFT", "SGFRF", "SGFRS", "SWFR", "SWFT", "SGOR", "SOGR", "SWCT", "SWGR",
+    "SPR", "SPRD", "SPRDH", "SPRDF", "SPRDA",
+};
+const std::vector<std::string> kRegKeys = {
+    "ROIR", "RGIR", "RWIR", "ROPR", "RGPR", "RWPR", "ROIT", "RGIT", "RWIT", "ROPT", "RGPT", "RWPT", "ROPR_ABC", "RWIT_ABC", "RGPT_ABC",
 };
 
 const std::vector<std::pair<std::string, M>> kMeasures = {
@@ -98,6 +121,11 @@ struct WellSpec {
     std::vector<double> wefac;       // per sim step
     std::vector<std::string> status; // per sim step: OPEN / STOP / SHUT
     std::vector<double> orat, wrat, grat, irat;  // deck units, per sim step
+    int k1 = 1, k2 = 2;              // connected layers
+    std::vector<int> complOf;        // completion number per connected layer (COMPLUMP); empty = default numbering
+    bool msw = false;                // multi-segment well: segment 1 + one segment per connection
+    int gidx(int k) const { return (i - 1) + 10 * (j - 1) + 100 * (k - 1); }
+    int complnum(int k) const { return complOf.empty() ? (k - k1 + 1) : complOf[k - k1]; }
 };
 
 struct Case {
@@ -132,7 +160,12 @@ double randRate(vh::Rng& rng) {
     return std::strtod(num(rng.unit() * (rng.coin() ? 100.0 : 20000.0)).c_str(), nullptr);
 }
 
-Case makeCase(vh::Rng& rng, const std::vector<std::string>& keys, bool thorough) {
+int fipnumOf(int gidx) { const int x = gidx % 10, z = gidx / 100; return 1 + (x >= 5 ? 1 : 0) + (z >= 2 ? 2 : 0); }
+int fipabcOf(int gidx) { return 1 + gidx / 100; }
+
+struct XKeys { std::vector<std::string> conn, wcompl, seg, reg; bool gpr = false; };
+
+Case makeCase(vh::Rng& rng, const std::vector<std::string>& keys, bool thorough, const XKeys* xk = nullptr) {
     Case c;
     static const std::vector<std::string> us = {"METRIC", "FIELD", "LAB", "PVT-M"};
     c.units = rng.pick(us);
@@ -180,6 +213,12 @@ Case makeCase(vh::Rng& rng, const std::vector<std::string>& keys, bool thorough)
         static const std::vector<std::string> it = {"WATER", "GAS", "OIL"};
         ws.injType = rng.pick(it);
         ws.firstStep = (c.nsteps > 1 && rng.coin(1, 5)) ? rng.range(1, c.nsteps - 1) : 0;
+        if (xk) {
+            static const std::vector<std::pair<int,int>> spans = {{1, 1}, {1, 2}, {1, 3}, {2, 3}, {1, 3}};
+            const auto sp = rng.pick(spans); ws.k1 = sp.first; ws.k2 = sp.second;
+            if (rng.coin(1, 2)) for (int k = ws.k1; k <= ws.k2; ++k) ws.complOf.push_back(rng.range(1, 2));
+            ws.msw = ws.producer && rng.coin(1, 3);
+        }
         double f = randFac(rng);
         std::string st = "OPEN";
         double o = randRate(rng), wq = randRate(rng), gq = randRate(rng), iq = randRate(rng);
@@ -201,25 +240,77 @@ Case makeCase(vh::Rng& rng, const std::vector<std::string>& keys, bool thorough)
     d << "RUNSPEC\nTITLE\nC09\nDIMENS\n 10 10 3 /\nOIL\nGAS\nWATER\n" << c.units << "\n"
       << "START\n " << c.day << " '" << kMonths[c.month - 1] << "' " << c.year << " /\n"
       << "WELLDIMS\n 40 10 20 40 /\nUNIFIN\nUNIFOUT\n"
+      << (xk ? "REGDIMS\n 4 2 1* 1* /\nWSEGDIMS\n 12 6 3 /\nNETWORK\n 12 12 /\n" : "")
       << "GRID\nDX\n300*100 /\nDY\n300*100 /\nDZ\n300*10 /\nTOPS\n100*2000 /\n"
       << "PORO\n300*0.2 /\nPERMX\n300*100 /\nPERMY\n300*100 /\nPERMZ\n300*10 /\n"
-      << "SUMMARY\nDATE\n";
+      ;
+    if (xk) {
+        d << "REGIONS\nFIPNUM\n";
+        for (int g = 0; g < 300; ++g) d << ' ' << fipnumOf(g) << (g % 20 == 19 ? "\n" : "");
+        d << "/\nFIPABC\n";
+        for (int g = 0; g < 300; ++g) d << ' ' << fipabcOf(g) << (g % 20 == 19 ? "\n" : "");
+        d << "/\n";
+    }
+    d << "SUMMARY\nDATE\n";
     for (const auto& k : keys) {
         d << k << "\n";
         if (k[0] != 'F') d << "/\n";
+    }
+    if (xk) {
+        for (const auto& k : xk->conn) d << k << "\n '*' /\n/\n";
+        for (const auto& k : xk->wcompl) {
+            d << k << "\n";
+            for (const auto& w : c.wells) {
+                std::set<int> cn; for (int kk = w.k1; kk <= w.k2; ++kk) cn.insert(w.complnum(kk));
+                for (int n : cn) d << " '" << w.name << "' " << n << " /\n";
+            }
+            d << "/\n";
+        }
+        bool anyMsw = false; for (const auto& w : c.wells) anyMsw = anyMsw || w.msw;
+        if (anyMsw)
+            for (const auto& k : xk->seg) {
+                d << k << "\n";
+                for (const auto& w : c.wells) if (w.msw) d << " '" << w.name << "' /\n";
+                d << "/\n";
+            }
+        for (const auto& k : xk->reg) d << k << "\n/\n";
+        if (xk->gpr) d << "GPR\n/\nNPR\n/\nGNETPR\n/\n";
     }
     d << "SCHEDULE\nGRUPTREE\n";
     for (const auto& g : c.groups)
         d << " '" << g.name << "' '" << (g.parent < 0 ? std::string("FIELD") : c.groups[g.parent].name) << "' /\n";
     d << "/\n";
+    if (xk && xk->gpr) {
+        // extended network along the group tree: every group is a node, FIELD the fixed-pressure terminal
+        d << "BRANPROP\n";
+        for (const auto& g : c.groups)
+            d << " '" << g.name << "' '" << (g.parent < 0 ? std::string("FIELD") : c.groups[g.parent].name) << "' 9999 /\n";
+        d << "/\nNODEPROP\n 'FIELD' 20 /\n";
+        for (const auto& g : c.groups) d << " '" << g.name << "' /\n";
+        d << "/\n";
+    }
     for (int s = 0; s < c.nsteps; ++s) {
-        std::ostringstream ws, cd, hist, injh, wef, gef;
+        std::ostringstream ws, cd, cl, sg, hist, injh, wef, gef;
         for (const auto& w : c.wells) {
             if (w.firstStep > s) continue;
             if (w.firstStep == s) {
                 ws << " '" << w.name << "' '" << c.groups[w.group].name << "' " << w.i << " " << w.j << " 1* '"
                    << (w.producer ? "OIL" : (w.injType == "GAS" ? "GAS" : "WATER")) << "' /\n";
-                cd << " '" << w.name << "' " << w.i << " " << w.j << " 1 2 'OPEN' 1* 1* 0.2 /\n";
+                cd << " '" << w.name << "' " << w.i << " " << w.j << " " << w.k1 << " " << w.k2 << " 'OPEN' 1* 1* 0.2 /\n";
+                if (!w.complOf.empty())
+                    for (int kk = w.k1; kk <= w.k2; ++kk)
+                        cl << " '" << w.name << "' " << w.i << " " << w.j << " " << kk << " " << kk << " " << w.complnum(kk) << " /\n";
+                if (w.msw) {
+                    sg << "WELSEGS\n '" << w.name << "' 2000 0 1* 'INC' 'HFA' /\n";
+                    for (int kk = w.k1; kk <= w.k2; ++kk) {
+                        const int sno = kk - w.k1 + 2;
+                        sg << " " << sno << " " << sno << " 1 " << (sno - 1) << " 10 10 0.2 0.0001 /\n";
+                    }
+                    sg << "/\nCOMPSEGS\n '" << w.name << "' /\n";
+                    for (int kk = w.k1; kk <= w.k2; ++kk)
+                        sg << " " << w.i << " " << w.j << " " << kk << " 1 " << (kk - w.k1) * 10 << " " << (kk - w.k1 + 1) * 10 << " /\n";
+                    sg << "/\n";
+                }
             }
             const bool first = (w.firstStep == s);
             const bool ratesChanged = first || w.orat[s] != w.orat[s-1] || w.wrat[s] != w.wrat[s-1] ||
@@ -238,6 +329,8 @@ Case makeCase(vh::Rng& rng, const std::vector<std::string>& keys, bool thorough)
             if ((s == 0 && g.gefac[0] != 1.0) || (s > 0 && g.gefac[s] != g.gefac[s-1]))
                 gef << " '" << g.name << "' " << num(g.gefac[s]) << " /\n";
         if (!ws.str().empty()) d << "WELSPECS\n" << ws.str() << "/\nCOMPDAT\n" << cd.str() << "/\n";
+        if (!cl.str().empty()) d << "COMPLUMP\n" << cl.str() << "/\n";
+        d << sg.str();
         if (!hist.str().empty()) d << "WCONHIST\n" << hist.str() << "/\n";
         if (!injh.str().empty()) d << "WCONINJH\n" << injh.str() << "/\n";
         if (!wef.str().empty()) d << "WEFAC\n" << wef.str() << "/\n";
@@ -263,7 +356,7 @@ struct Real {
     {}
 };
 
-data::Wells makeWellData(vh::Rng& rng, const Case& c, int simStep, vh::Sink* sink) {
+data::Wells makeWellData(vh::Rng& rng, const Case& c, int simStep, vh::Sink* sink, bool ext = false) {
     data::Wells out;
     // small but non-zero rates (SI, m3/s): 1e-9 ... 1e-14, far below any "looks like zero" threshold but
     // perfectly good numbers (core floods in LAB units, nearly dead wells).  Either every well of the
@@ -291,6 +384,57 @@ data::Wells makeWellData(vh::Rng& rng, const Case& c, int simStep, vh::Sink* sin
             double sign = w.producer ? -1.0 : 1.0;
             if (rng.coin(1, 8)) sign = -sign;                 // cross flow
             dw.rates.set(pr.second, sign * mag);
+        }
+        if (ext) {
+            // rarely the simulator runs a well under the opposite control type
+            if (rng.coin(1, 12)) { dw.current_control.isProducer = !w.producer; if (sink) sink->count("well.type_flipped"); }
+            // connection results: either a consistent split of the well rates (same sign, fractions summing to
+            // one) or independent numbers; sometimes a connection is missing, sometimes there is an extra one
+            const bool split = rng.coin(1, 2);
+            if (sink) sink->count(split ? "conn.split_of_well_rates" : "conn.independent");
+            const int nc = w.k2 - w.k1 + 1;
+            std::vector<double> frac(nc);
+            { double t = 0; for (auto& f : frac) { f = 0.05 + rng.unit(); t += f; } for (auto& f : frac) f /= t; }
+            const bool dropOne = !split && rng.coin(1, 6);
+            const int dropK = w.k1 + rng.range(0, nc - 1);
+            for (int k = w.k1; k <= w.k2; ++k) {
+                if (dropOne && k == dropK) { if (sink) sink->count("conn.missing_in_results"); continue; }
+                data::Connection cn;
+                cn.index = static_cast<std::size_t>(w.gidx(k));
+                for (const auto& pr : kRates) {
+                    if (split) { if (dw.rates.has(pr.second)) cn.rates.set(pr.second, dw.rates.get(pr.second) * frac[k - w.k1]); continue; }
+                    if (rng.coin(1, 10)) continue;
+                    double mag = rng.unit() * (rng.coin() ? 1e-3 : 1.0);
+                    if (tinyMode == 0) mag = (0.05 + rng.unit()) * tinyScale;
+                    if (rng.coin(1, 15)) mag = 0.0;
+                    double sign = w.producer ? -1.0 : 1.0;
+                    if (rng.coin(1, 8)) sign = -sign;
+                    cn.rates.set(pr.second, sign * mag);
+                }
+                cn.reservoir_rate = (w.producer ? -1.0 : 1.0) * (rng.coin(1, 8) ? -1.0 : 1.0) * rng.unit() * (rng.coin(1, 10) ? 0.0 : 1.0);
+                cn.pressure = 1e5 + rng.unit() * 4e7;
+                dw.connections.push_back(cn);
+                if (sink) sink->count("conn.results");
+            }
+            if (rng.coin(1, 10)) { data::Connection cn; cn.index = 299 - static_cast<std::size_t>(w.gidx(w.k1)) % 100; cn.rates.set(rt::oil, -1.0); dw.connections.push_back(cn); }
+            if (w.msw)
+                for (int sno = 1; sno <= nc + 1; ++sno) {
+                    if (rng.coin(1, 12)) { if (sink) sink->count("seg.missing_in_results"); continue; }
+                    data::Segment sg;
+                    sg.segNumber = static_cast<std::size_t>(sno);
+                    for (const auto& pr : kRates) {
+                        if (rng.coin(1, 10)) continue;
+                        double mag = rng.unit() * (rng.coin() ? 1e-3 : 1.0);
+                        if (tinyMode == 0) mag = (0.05 + rng.unit()) * tinyScale;
+                        if (rng.coin(1, 15)) mag = 0.0;
+                        sg.rates.set(pr.second, (rng.coin(1, 6) ? 1.0 : -1.0) * mag);
+                    }
+                    using SP = data::SegmentPressures::Value;
+                    for (SP v : {SP::Pressure, SP::PDrop, SP::PDropHydrostatic, SP::PDropAccel, SP::PDropFriction})
+                        sg.pressures[v] = (v == SP::Pressure ? 1e5 + rng.unit() * 4e7 : (rng.unit() - 0.3) * 1e6);
+                    dw.segments.emplace(sg.segNumber, sg);
+                    if (sink) sink->count("seg.results");
+                }
         }
         out[w.name] = dw;
     }
@@ -339,6 +483,143 @@ std::string dumpState(const Real& R, const SummaryState& st, int simStep, const 
     return o.str();
 }
 
+data::GroupAndNetworkValues makeNetData(vh::Rng& rng, const Case& c) {
+    data::GroupAndNetworkValues out;
+    for (const auto& g : c.groups)
+        if (rng.coin(2, 3)) { auto& nd = out.nodeData[g.name]; nd.pressure = 1e5 + rng.unit() * 3e7; nd.converged_pressure = 1e5 + rng.unit() * 3e7; }
+    if (rng.coin(2, 3)) { auto& nd = out.nodeData["FIELD"]; nd.pressure = 2e6; nd.converged_pressure = 2e6 + rng.unit(); }
+    return out;
+}
+
+// ---- nodes below the well level, regions, network nodes ------------------------------------------
+struct XNode {
+    char kind;                       // C connection, L completion, S segment, R region, N group (network node)
+    std::string name;                // well / group; region set for R
+    int number;
+    std::vector<std::pair<std::string, std::string>> keys;   // (normalised key = table key, keyword of the node)
+};
+
+std::vector<XNode> collectXNodes(const SummaryConfig& cfg) {
+    std::map<std::tuple<char, std::string, int>, XNode> m;
+    using Cat = SummaryConfigNode::Category;
+    for (const auto& n : cfg) {
+        char kind = 0; std::string name = n.namedEntity(); std::string key = n.keyword();
+        switch (n.category()) {
+        case Cat::Connection: kind = 'C'; break;
+        case Cat::Completion: kind = 'L'; key = EclIO::SummaryNode::normalise_keyword(EclIO::SummaryNode::Category::Completion, key); break;
+        case Cat::Segment: kind = 'S'; break;
+        case Cat::Region: kind = 'R'; name = n.fip_region(); key = EclIO::SummaryNode::normalise_region_keyword(key); break;
+        case Cat::Node: if (n.keyword() == "GPR" || n.keyword() == "NPR" || n.keyword() == "GNETPR") kind = 'N'; break;
+        default: break;
+        }
+        if (!kind) continue;
+        auto& x = m[{kind, name, kind == 'N' ? 0 : n.number()}];
+        x.kind = kind; x.name = name; x.number = kind == 'N' ? 0 : n.number();
+        x.keys.emplace_back(key, n.keyword());
+    }
+    std::vector<XNode> out;
+    for (auto& kv : m) out.push_back(kv.second);
+    return out;
+}
+
+bool xget(const SummaryState& st, const XNode& n, const std::pair<std::string, std::string>& k, double& v) {
+    const auto num = static_cast<std::size_t>(n.number);
+    switch (n.kind) {
+    case 'C': if (!st.has_conn_var(n.name, k.second, num)) return false; v = st.get_conn_var(n.name, k.second, num); return true;
+    case 'S': if (!st.has_segment_var(n.name, k.second, num)) return false; v = st.get_segment_var(n.name, k.second, num); return true;
+    case 'R': if (!st.has_region_var(n.name, k.second, num)) return false; v = st.get_region_var(n.name, k.second, num); return true;
+    case 'N': if (!st.has_group_var(n.name, k.second)) return false; v = st.get_group_var(n.name, k.second); return true;
+    default: {
+        const std::string key = k.first + ":" + n.name + ":" + std::to_string(n.number);
+        if (!st.has(key)) return false; v = st.get(key); return true; }
+    }
+}
+
+// the W section restricted to `only` (empty = all) + the sections of the xnode op
+std::string dumpStateX(const Real& R, const SummaryState& st, int simStep, const data::Wells& wd, const data::GroupAndNetworkValues& net,
+                       const XNode& n, const std::vector<std::pair<std::string, std::size_t>>& rconns) {
+    std::set<std::string> only;
+    if (n.kind == 'R') for (const auto& rc : rconns) only.insert(rc.first);
+    else if (n.kind != 'N') only.insert(n.name);
+    std::ostringstream o;
+    auto gnames = R.sched.groupNames(simStep);
+    std::sort(gnames.begin(), gnames.end());
+    o << "G " << gnames.size();
+    for (const auto& gn : gnames) {
+        const auto& g = R.sched.getGroup(gn, simStep);
+        const auto par = g.flow_group();
+        o << ' ' << gn << ' ' << (par ? *par : std::string("-")) << ' ' << vh::hexF64(g.getGroupEfficiencyFactor())
+          << ' ' << joinOrDash(g.groups()) << ' ' << joinOrDash(g.wells());
+    }
+    std::vector<std::string> wnames;
+    for (const auto& wn : R.sched.wellNames(simStep)) if (only.empty() || only.count(wn)) wnames.push_back(wn);
+    std::sort(wnames.begin(), wnames.end());
+    o << " W " << wnames.size();
+    for (const auto& wn : wnames) {
+        const auto& w = R.sched.getWell(wn, simStep);
+        auto it = wd.find(wn);
+        const char* dyn = (it == wd.end()) ? "A" : (it->second.dynamicStatus == Well::Status::SHUT ? "S" : "O");
+        o << ' ' << wn << ' ' << w.groupName() << ' ' << w.seqIndex() << ' ' << vh::hexF64(w.getEfficiencyFactor()) << ' ' << dyn;
+        std::vector<std::pair<std::string, double>> rs;
+        if (it != wd.end())
+            for (const auto& pr : kRates)
+                if (it->second.rates.has(pr.second)) rs.emplace_back(pr.first, it->second.rates.get(pr.second));
+        o << ' ' << rs.size();
+        for (const auto& r : rs) o << ' ' << r.first << ' ' << vh::hexF64(r.second);
+        for (auto ph : {Phase::WATER, Phase::OIL, Phase::GAS}) o << ' ' << vh::hexF64(w.production_rate(st, ph));
+        for (auto ph : {Phase::WATER, Phase::OIL, Phase::GAS}) o << ' ' << vh::hexF64(w.injection_rate(st, ph));
+    }
+    o << " SC " << wnames.size();
+    for (const auto& wn : wnames) {
+        const auto& conns = R.sched.getWell(wn, simStep).getConnections();
+        o << ' ' << wn << ' ' << conns.size();
+        for (const auto& cn : conns) o << ' ' << cn.global_index() << ' ' << cn.complnum();
+    }
+    auto rateList = [&](const data::Rates& r) {
+        std::vector<std::pair<std::string, double>> rs;
+        for (const auto& pr : kRates) if (r.has(pr.second)) rs.emplace_back(pr.first, r.get(pr.second));
+        std::ostringstream t; t << rs.size();
+        for (const auto& x : rs) t << ' ' << x.first << ' ' << vh::hexF64(x.second);
+        return t.str();
+    };
+    std::vector<std::string> xnames;
+    for (const auto& kv : wd) if (only.empty() || only.count(kv.first)) xnames.push_back(kv.first);
+    std::sort(xnames.begin(), xnames.end());
+    o << " X " << xnames.size();
+    for (const auto& wn : xnames) {
+        const auto& dw = wd.at(wn);
+        o << ' ' << wn << ' ' << (dw.dynamicStatus == Well::Status::SHUT ? "S" : "O") << ' ' << (dw.current_control.isProducer ? "P" : "I")
+          << ' ' << dw.connections.size();
+        for (const auto& cn : dw.connections)
+            o << ' ' << cn.index << ' ' << rateList(cn.rates) << ' ' << vh::hexF64(cn.reservoir_rate) << ' ' << vh::hexF64(cn.pressure);
+        o << ' ' << dw.segments.size();
+        using SP = data::SegmentPressures::Value;
+        for (const auto& sg : dw.segments) {
+            o << ' ' << sg.first << ' ' << rateList(sg.second.rates);
+            for (SP v : {SP::Pressure, SP::PDrop, SP::PDropHydrostatic, SP::PDropAccel, SP::PDropFriction}) o << ' ' << vh::hexF64(sg.second.pressures[v]);
+        }
+    }
+    o << " RC " << rconns.size();
+    for (const auto& rc : rconns) o << ' ' << rc.first << ' ' << rc.second;
+    auto np = net.nodeData.find(n.name);
+    const bool hasN = n.kind == 'N' && np != net.nodeData.end();
+    o << " N " << (hasN ? 1 : 0) << ' ' << vh::hexF64(hasN ? np->second.pressure : 0.0) << ' ' << vh::hexF64(hasN ? np->second.converged_pressure : 0.0);
+    const auto& us = R.es.getUnits();
+    o << " U " << kMeasures.size();
+    for (const auto& m : kMeasures) o << ' ' << m.first << ' ' << vh::hexF64(us.from_si(m.second, 1.0));
+    return o.str();
+}
+
+XKeys recognisedXKeys(const Parser& parser, std::map<std::string, long>& stats) {
+    XKeys xk;
+    auto add = [&](const std::vector<std::string>& from, std::vector<std::string>& to) {
+        for (const auto& k : from) if (parser.isRecognizedKeyword(k)) to.push_back(k); else { ++stats["key.unknown_to_parser"]; ++stats["unknown_to_parser." + k]; }
+    };
+    add(kConnKeys, xk.conn); add(kWellComplKeys, xk.wcompl); add(kSegKeys, xk.seg); add(kRegKeys, xk.reg);
+    xk.gpr = parser.isRecognizedKeyword("GPR") && parser.isRecognizedKeyword("NPR") && parser.isRecognizedKeyword("GNETPR");
+    return xk;
+}
+
 struct Eval { int reportStep; double secs; };
 
 std::vector<Eval> makeEvals(vh::Rng& rng, const Case& c, const Real& R) {
@@ -379,10 +660,11 @@ int runCorr(uint64_t seed, bool thorough, const std::string& outdir) {
     vh::Rng rng(seed);
     Parser parser;
     const auto keys = recognisedKeys(parser, sink.stats);
+    const XKeys xkeys = recognisedXKeys(parser, sink.stats);
     const int ncases = thorough ? 260 : 36;
     const std::string tol = vh::hexF64(1e-12);
     for (int ci = 0; ci < ncases; ++ci) {
-        Case c = makeCase(rng, keys, thorough);
+        Case c = makeCase(rng, keys, thorough, &xkeys);
         std::unique_ptr<Real> Rp;
         try { Rp = std::make_unique<Real>(c.deck, parser); }
         catch (const std::exception& e) {
@@ -390,6 +672,8 @@ int runCorr(uint64_t seed, bool thorough, const std::string& outdir) {
             return 3;
         }
         Real& R = *Rp;
+        const auto xnodes = collectXNodes(R.cfg);
+        const out::RegionCache regCache(R.cfg.fip_regions(), R.es.fieldProps(), R.es.getInputGrid(), R.sched);
         sink.count("case.units." + c.units);
         sink.count("case.groups", c.groups.size());
         sink.count("case.wells", c.wells.size());
@@ -399,7 +683,11 @@ int runCorr(uint64_t seed, bool thorough, const std::string& outdir) {
         SummaryState st(TimeService::from_time_t(R.sched.getStartTime()), R.es.runspec().udqParams().undefinedValue());
         for (const auto& ev : makeEvals(rng, c, R)) {
             const int simStep = std::max(0, ev.reportStep - 1);
-            const auto wd = makeWellData(rng, c, simStep, &sink);
+            const auto wd = makeWellData(rng, c, simStep, &sink, true);
+            const auto net = makeNetData(rng, c);
+            std::vector<std::vector<double>> xprev(xnodes.size());
+            for (size_t xi = 0; xi < xnodes.size(); ++xi)
+                for (const auto& k : xnodes[xi].keys) { double v = 0.0; xget(st, xnodes[xi], k, v); xprev[xi].push_back(v); }
             // previous values
             struct Node { char cat; std::string name; };
             std::vector<Node> nodes;
@@ -412,7 +700,7 @@ int runCorr(uint64_t seed, bool thorough, const std::string& outdir) {
             const double dt = ev.secs - st.get_elapsed();
             const double elapsedBefore = st.get_elapsed();
             const std::string state = dumpState(R, st, simStep, wd);
-            writer.eval(st, ev.reportStep, ev.secs, wd, {}, {}, {}, {}, {});
+            writer.eval(st, ev.reportStep, ev.secs, wd, {}, net, {}, {}, {});
             {
                 std::ostringstream top;
                 top << "sumfuns.time " << static_cast<long long>(R.sched.getStartTime()) << ' ' << vh::hexF64(elapsedBefore) << ' '
@@ -440,6 +728,27 @@ int runCorr(uint64_t seed, bool thorough, const std::string& outdir) {
                 sink.emit(op.str(), "ok " + std::to_string(nk));
                 sink.count(std::string("node.") + n.cat);
                 sink.count("keys", nk);
+            }
+            for (size_t xi = 0; xi < xnodes.size(); ++xi) {
+                const auto& n = xnodes[xi];
+                // wells / groups the schedule does not know at this step are not evaluated by the real code either way
+                std::ostringstream ks; int nk = 0;
+                for (size_t ki = 0; ki < n.keys.size(); ++ki) {
+                    double v = 0.0;
+                    if (!xget(st, n, n.keys[ki], v)) { sink.count("xkey.not_evaluated"); continue; }
+                    ks << ' ' << n.keys[ki].first << ' ' << vh::hexF64(xprev[xi][ki]) << ' ' << vh::hexF64(v);
+                    ++nk;
+                    sink.count(v != 0.0 ? std::string("xvalue.nonzero.") + n.kind : std::string("xvalue.zero.") + n.kind);
+                }
+                if (!nk) continue;
+                static const std::vector<std::pair<std::string, std::size_t>> noConns;
+                const auto& rconns = n.kind == 'R' ? regCache.connections(n.name, n.number) : noConns;
+                std::ostringstream op;
+                op << "sumfuns.xnode " << (n.kind == 'R' ? "R" : (n.kind == 'N' ? "G" : "S")) << ' ' << (n.kind == 'R' ? std::string("-") : n.name) << ' '
+                   << n.number << ' ' << vh::hexF64(dt) << ' ' << tol << ' ' << dumpStateX(R, st, simStep, wd, net, n, rconns) << " K " << nk << ks.str();
+                sink.emit(op.str(), "ok " + std::to_string(nk));
+                sink.count(std::string("xnode.") + n.kind);
+                sink.count("xkeys", nk);
             }
         }
     }
